@@ -44,7 +44,7 @@ Abstract(s, rs, bs, maxBody, cut) ==
                           big |-> (maxBody > 0 /\ s[i].bodyLen > maxBody),
                           partial |-> (cut > 0 /\ o[i].start < cut /\ cut < o[i].end)]]
 
-NoCfg == [streaming |-> FALSE, idle |-> "inloop", trace |-> FALSE, wfail |-> 0, deny |-> FALSE]
+NoCfg == [streaming |-> FALSE, idle |-> "inloop", trace |-> FALSE, wfail |-> 0, deny |-> FALSE, nokeep |-> FALSE]
 Blank == /\ reqs' = << >> /\ cfg' = NoCfg /\ sent' = 0 /\ eof' = FALSE /\ rd' = 0
          /\ phase' = "closed" /\ cur' = 1 /\ cons' = 0 /\ interim' = FALSE /\ hlog' = << >> /\ out' = << >>
          /\ topen' = FALSE /\ pairReq' = 0 /\ tlog' = << >> /\ script' = << >> /\ active' = FALSE
@@ -70,7 +70,7 @@ TraceCase == /\ HasLine /\ Line.ev = "Case" /\ ~active
              /\ \A i \in DOMAIN Line.script : WellFormedReq(Line.script[i])
              /\ script' = Line.script /\ active' = TRUE /\ readDone' = FALSE /\ eofSeen' = FALSE /\ unread' = FALSE
              /\ reqs' = Abstract(Line.script, Line.resps, Line.behs, Line.cfg.maxBody, Line.cfg.truncate)
-             /\ cfg' = [streaming |-> Line.cfg.streaming, idle |-> Line.cfg.idle, trace |-> Line.cfg.trace # "off", wfail |-> Line.cfg.wfail, deny |-> Line.cfg.deny]
+             /\ cfg' = [streaming |-> Line.cfg.streaming, idle |-> Line.cfg.idle, trace |-> Line.cfg.trace # "off", wfail |-> Line.cfg.wfail, deny |-> Line.cfg.deny, nokeep |-> Line.cfg.nokeep]
              /\ behs' = Line.behs /\ level' = Line.cfg.trace /\ resps' = Line.resps
              /\ sent' = 0 /\ eof' = FALSE /\ rd' = 0 /\ phase' = "idle" /\ cur' = 1 /\ cons' = 0 /\ interim' = FALSE
              /\ hlog' = << >> /\ out' = << >> /\ topen' = FALSE /\ pairReq' = 0 /\ tlog' = << >>
